@@ -146,6 +146,9 @@ def misc_unit(u):
 
 
 RR_LISTS = [[0], [0, 1], [0, 1, 2], [1, 5, 9, 11]]
+# second family: changes that keep the length (one or two partitions replaced; ascending lists only, as the property states)
+RR_LISTS_SAMELEN = [[0, 1, 2], [0, 1, 3], [0, 2, 3], [0, 1]]
+RR_FAMILIES = [RR_LISTS, RR_LISTS_SAMELEN]
 
 
 def rr_unit(u):
@@ -156,6 +159,7 @@ def rr_unit(u):
     st = enum.EnumStats()
     depth = u["depth"]
     random_start = u["random_start"]
+    RR_LISTS = RR_FAMILIES[u.get("family", 0)]
     orig_randint = ap.randint
     answers = []
 
@@ -217,7 +221,7 @@ def rr_unit(u):
                         "message": "%s; lists chosen %r, randint answers %r, picks %r" % (
                             bad, [RR_LISTS[x] for x in hist], script, picks),
                         "input": {"hist": list(hist), "script": script, "random_start": random_start,
-                                  "inplace": bool(u.get("inplace"))},
+                                  "inplace": bool(u.get("inplace")), "family": u.get("family", 0)},
                         "check": "checks.C18:replay_rr"})
                     if len(st.violations) > 5:
                         return st
@@ -302,7 +306,7 @@ def replay(v):
         return [x for x in insitu_unit(inp["insitu"]).violations if x["signature"] == v["signature"]][:1]
     if "hist" in inp:
         st = rr_unit({"first": inp["hist"][0], "depth": len(inp["hist"]), "random_start": inp["random_start"],
-                      "inplace": inp.get("inplace", False)})
+                      "inplace": inp.get("inplace", False), "family": inp.get("family", 0)})
         return [x for x in st.violations if x["signature"] == v["signature"]][:1]
     from afkak.partitioner import HashedPartitioner, pure_murmur2
     key = bytes.fromhex(inp["key"])
@@ -350,6 +354,8 @@ def run(tier, seed, only=None):
                  for rs in (False, True)]
         units += [{"first": f, "depth": depth - 2, "random_start": rs, "inplace": True}
                   for f in range(len(RR_LISTS)) for rs in (False, True)]
+        units += [{"first": f, "depth": depth - 1, "random_start": rs, "family": 1, "inplace": ip}
+                  for f in range(len(RR_LISTS_SAMELEN)) for rs in (False, True) for ip in (False, True)]
         if tier == "thorough":
             units += [{"first": f, "depth": 12, "random_start": False} for f in range(len(RR_LISTS))]
         st = enum.run_units("checks.C18:rr_unit", units, seed)
@@ -366,7 +372,7 @@ def run(tier, seed, only=None):
     rep.coverage["rule"] = (
         "hash: every key of length 0..%d over the byte alphabet %s (shorter first) plus 177 long keys (len 9..67) "
         "and 781 text keys, pure_murmur2 and HashedPartitioner.partition compared with Kafka's Utils.murmur2 run on "
-        "the JVM; rr: every sequence of partition() calls of the stated depth over the lists %r with every pair of "
+        "the JVM; rr: every sequence of partition() calls of the stated depth over the lists %r (and, one step shallower, over the same-length family [[0,1,2],[0,1,3],[0,2,3],[0,1]]) with every pair of "
         "randint answers when randomStart is on, the lists passed as fresh objects and (2 calls shorter) as one list object updated in place; in situ: the real Producer+KafkaClient on the virtual cluster with 1/2/3/5 "
         "partitions listed by the broker in ascending, reverse and rotated order (also with one partition leaderless), batched and unbatched, round-robin (with sends to a second topic interleaved) and hashed.  Distinct non-trivial = distinct (len%%4, first byte, last byte, "
         "hash low bits) classes for keys, distinct histories containing at least one list change for round robin."
